@@ -183,6 +183,8 @@ impl Matrix {
         let mut k1 = 1_u64; // u1 = 0, v1 = 1
         let mut even = true;
         if a1 < LIMIT {
+            #[cfg(feature = "recmo_uint_verif")]
+            crate::verif_hooks::hit(120);
             return Matrix::IDENTITY;
         }
 
@@ -196,8 +198,12 @@ impl Matrix {
 
             // Test i + 1 (odd)
             if a2 >= v2 && a1 - a2 >= u2 {
+                #[cfg(feature = "recmo_uint_verif")]
+                crate::verif_hooks::hit(121);
                 return Matrix(0, 1, u2, v2, false);
             } else {
+                #[cfg(feature = "recmo_uint_verif")]
+                crate::verif_hooks::hit(122);
                 return Matrix::IDENTITY;
             }
         }
@@ -260,13 +266,19 @@ impl Matrix {
                 // Test i + 2 (even)
                 if a3 >= u3 && a2 - a3 >= v3 + v2 {
                     // Correct value is i + 2
+                    #[cfg(feature = "recmo_uint_verif")]
+                    crate::verif_hooks::hit(123);
                     Matrix(u2, v2, u3, v3, true)
                 } else {
                     // Correct value is i + 1
+                    #[cfg(feature = "recmo_uint_verif")]
+                    crate::verif_hooks::hit(124);
                     Matrix(u1, v1, u2, v2, false)
                 }
             } else {
                 // Correct value is i
+                #[cfg(feature = "recmo_uint_verif")]
+                crate::verif_hooks::hit(125);
                 Matrix(u0, v0, u1, v1, true)
             }
         } else {
@@ -276,13 +288,19 @@ impl Matrix {
                 // Test i + 2 (odd)
                 if a3 >= v3 && a2 - a3 >= u3 + u2 {
                     // Correct value is i + 2
+                    #[cfg(feature = "recmo_uint_verif")]
+                    crate::verif_hooks::hit(126);
                     Matrix(u2, v2, u3, v3, false)
                 } else {
                     // Correct value is i + 1
+                    #[cfg(feature = "recmo_uint_verif")]
+                    crate::verif_hooks::hit(127);
                     Matrix(u1, v1, u2, v2, true)
                 }
             } else {
                 // Correct value is i
+                #[cfg(feature = "recmo_uint_verif")]
+                crate::verif_hooks::hit(128);
                 Matrix(u0, v0, u1, v1, false)
             }
         }
